@@ -74,7 +74,7 @@ def inplace (f : PCell Int → PCell Int → PCell Int) (a b : Sx) : Sx :=
 /-! #### derivatives (key `d_dt`), Int side -/
 
 /-- polynomial with a derivative: `(shape) len (ints) mask (derivative ints)` -/
-def parsePD : Sx → Option (Arr (PCell Int × List Int))
+def parsePD : Sx → Option (Arr (PCellD Int))
   | .list [sh, len, vs, m, ds] => do
     let shape ← sh.nats?
     let len ← len.toNat?
@@ -83,7 +83,7 @@ def parsePD : Sx → Option (Arr (PCell Int × List Int))
     let mask ← parseMask m
     let va := vals.toArray
     let da := dvals.toArray
-    some ⟨shape, fun i => (⟨itemAt va shape len i, mask.at shape i⟩, itemAt da shape len i)⟩
+    some ⟨shape, fun i => ⟨itemAt va shape len i, itemAt da shape len i, mask.at shape i⟩⟩
   | _ => none
 
 /-- scalar with a derivative: `(shape) (ints) mask (derivative ints)` -/
@@ -98,12 +98,25 @@ def parseSD : Sx → Option (Arr (SCell Int × Int))
     some ⟨shape, fun i => (⟨va[ravel shape i]!, mask.at shape i⟩, da[ravel shape i]!)⟩
   | _ => none
 
+def outPD (r : Arr (PCellD Int)) : Sx :=
+  .list [Sx.ofNats r.shape,
+         .list (r.toList.map fun c => if c.m then .atom "m" else Sx.ofInts c.c),
+         .list (r.toList.map fun c => if c.m then .atom "m" else Sx.ofInts c.d)]
+
+def binD? : String → Option (PCellD Int → PCellD Int → PCellD Int)
+  | "add" => some PCellD.add | "sub" => some PCellD.sub | "rsub" => some PCellD.rsub
+  | "mul" => some PCellD.mul | _ => none
+
+def unD? (n : Nat) : String → Option (PCellD Int → PCellD Int)
+  | "neg" => some PCellD.neg | "deriv" => some PCellD.deriv
+  | "pow" => some (fun p => p.pow n) | "id" => some id | _ => none
+
 def handleD : List Sx → Sx
   | [.atom "evald", a, x] =>
     match parsePD a, parseSD x with
     | some a, some x =>
-      let f := fun (p : PCell Int × List Int) (x : SCell Int × Int) =>
-        (evalD p.1.c p.2 x.1.v x.2, p.1.m || x.1.m)
+      let f := fun (p : PCellD Int) (x : SCell Int × Int) =>
+        (evalD p.c p.d x.1.v x.2, p.m || x.1.m)
       match Arr.map2 f a x with
       | some r =>
         .list [Sx.ofNats r.shape,
@@ -111,25 +124,42 @@ def handleD : List Sx → Sx
                .list (r.toList.map fun c => if c.2 then .atom "m" else Sx.ofInt c.1.2)]
       | none => .atom "ValueError"
     | _, _ => err "operand"
-  | [.atom "muld", a, b] =>
-    match parsePD a, parsePD b with
-    | some a, some b =>
-      let f := fun (p q : PCell Int × List Int) =>
-        (mulC p.1.c q.1.c, mulDerivC p.1.c p.2 q.1.c q.2, p.1.m || q.1.m)
+  | [.atom "bind", .atom op, a, b] =>
+    match binD? op, parsePD a, parsePD b with
+    | some f, some a, some b =>
       match Arr.map2 f a b with
-      | some r =>
-        .list [Sx.ofNats r.shape,
-               .list (r.toList.map fun c => if c.2.2 then .atom "m" else Sx.ofInts c.1),
-               .list (r.toList.map fun c => if c.2.2 then .atom "m" else Sx.ofInts c.2.1)]
+      | some r => outPD r
       | none => .atom "ValueError"
+    | _, _, _ => err "operand"
+  | [.atom "und", .atom op, n, a] =>
+    match n.toNat?, parsePD a with
+    | some n, some a =>
+      match unD? n op with
+      | some f =>
+        if op == "pow" && n == 0 then outPD ⟨[], fun _ => (PCellD.pow ⟨[], [], false⟩ 0)⟩
+        else outPD (a.map f)
+      | none => err "op"
     | _, _ => err "operand"
-  | [.atom "derivd", a] =>
-    match parsePD a with
-    | some a =>
-      .list [Sx.ofNats a.shape,
-             .list (a.toList.map fun c => if c.1.m then .atom "m" else Sx.ofInts (derivC c.1.c)),
-             .list (a.toList.map fun c => if c.1.m then .atom "m" else Sx.ofInts (derivC c.2))]
-    | none => err "operand"
+  | [.atom "smuld", a, k] =>
+    match parsePD a, k.toInt? with
+    | some a, some k => outPD (a.map (PCellD.scale k))
+    | _, _ => err "operand"
+  | [.atom "chaind", .atom op1, .atom op2, .atom op3, n, a, b, c] =>
+    -- op3 (op2 (op1 a b) c): two binary operators, then a unary one
+    match binD? op1, binD? op2, n.toNat?, parsePD a, parsePD b, parsePD c with
+    | some f1, some f2, some n, some a, some b, some c =>
+      match unD? n op3 with
+      | some f3 =>
+        match Arr.map2 f1 a b with
+        | some ab =>
+          match Arr.map2 f2 ab c with
+          | some r =>
+            if op3 == "pow" && n == 0 then outPD ⟨[], fun _ => (PCellD.pow ⟨[], [], false⟩ 0)⟩
+            else outPD (r.map f3)
+          | none => .atom "ValueError"
+        | none => .atom "ValueError"
+      | none => err "op"
+    | _, _, _, _, _, _ => err "operand"
   | _ => err "c20-op"
 
 /-! #### Float side -/
@@ -179,7 +209,23 @@ def handleRoots (sh len vs m eigs : Sx) : Sx :=
     .list [Sx.ofNats shape, .list cells]
   | _, _, _, _, _ => err "operand"
 
+/-- `invline`: `(shape) len (float bits) mask`; per leading element the two coefficients or `m` -/
+def handleInv (sh len vs m : Sx) : Sx :=
+  match sh.nats?, len.toNat?, floats? vs, parseMask m with
+  | some shape, some len, some vals, some mask =>
+    if len != 2 then .atom "ValueError" else
+    let vals := vals.toArray
+    let cells := (indices shape).map fun i =>
+      let base := ravel shape i * len
+      let p : PCell Float := ⟨[vals[base]!, vals[base + 1]!], mask.at shape i⟩
+      match invertLine p with
+      | some (u, v) => if u.m || v.m then Sx.atom "m" else Sx.list [fSx u.v, fSx v.v]
+      | none => .atom "ValueError"
+    .list [Sx.ofNats shape, .list cells]
+  | _, _, _, _ => err "operand"
+
 def handle : List Sx → Sx
+  | [.atom "invline", sh, len, vs, m] => handleInv sh len vs m
   | [.atom "add", a, b] => bin addA a b
   | [.atom "sub", a, b] => bin subA a b
   | [.atom "rsub", a, b] => bin rsubA a b
